@@ -59,7 +59,10 @@ def main():
             budget = json.loads(a.budget)
         sel.append((modname, cfg, budget, a.cap or cap))
     print(f"{len(sel)} units", flush=True)
-    with mp.get_context("fork").Pool(a.procs) as pool:
+    from vcheck.runner import _pin
+    ctx = mp.get_context("fork")
+    counter = ctx.Value("i", int(os.environ.get("PROBE_CPU0", "0")))
+    with ctx.Pool(a.procs, initializer=_pin, initargs=(counter,)) as pool:
         for name, budget, c, n, capped, sigs, msgs, wall in pool.imap_unordered(_run, sel):
             print(f"{name} {budget} {c} execs={n} capped={capped} wall={wall}s sigs={sigs}", flush=True)
             for m in msgs:
